@@ -281,6 +281,22 @@ def step (st : St) (fields : List String) : St × String :=
     | some u, some v =>
       (st, encBool (u.beq v) ++ encBool (u.lt v) ++ encBool (u.le v) ++ encBool (u.gt v) ++ encBool (u.ge v))
     | _, _ => (st, "!dead")
+  | ["rt", b, h] =>
+    -- URL(str(u)): re-parse the canonical string in auto-encoding mode
+    match parseBackend b, getUrl st h with
+    | some b, some u =>
+      let e : Env := { b := b, o := mkOracles st.orc }
+      pushUrl st (do let s ← str e u; encodeUrl e s)
+    | some _, none => ({ st with urls := st.urls.push none }, "!dead")
+    | _, _ => (st, "!bad-op")
+  | ["hr", b, h] =>
+    -- URL(u.human_repr())
+    match parseBackend b, getUrl st h with
+    | some b, some u =>
+      let e : Env := { b := b, o := mkOracles st.orc }
+      pushUrl st (do let s ← humanRepr e u; encodeUrl e s)
+    | some _, none => ({ st with urls := st.urls.push none }, "!dead")
+    | _, _ => (st, "!bad-op")
   | ["pkl", h] =>
     match getUrl st h with
     | some u => pushUrl st (pure (pickleTwin u))
